@@ -18,7 +18,8 @@ from mc.ref import attrs, wild
 ID = 'C03'
 TITLE = 'Attribute sets are validated per declared uses, value constraints and wildcards'
 RULE = ('every declaration vector of the bound (items Lp/Lq local unqualified, LTp local form=qualified, RTp/RTd/RN1g/Rxml '
-        'refs to global attributes (t:d declares a default, n1:g a fixed value); each use x value-constraint x direct|attributeGroup x type) x every wildcard of the '
+        'refs to global attributes (t:d declares a default, n1:g a fixed value) + the form family: attributeFormDefault '
+        '{absent,qualified,unqualified} x form {absent,qualified,unqualified} for a local p; each use x value-constraint x direct|attributeGroup x type) x every wildcard of the '
         'tier x every subset of the pool {p,q,T:p,N1:g,N2:u,xml:lang,xsi:foo} with canonical values (decoded under '
         'use_defaults x fill_missing, lax) + every single (thorough: also double) value deviation + xsi:nil / N1:h / '
         'T:d extras; a case is non-trivial when its (version, schema, set of reference judgement kinds) signature is new')
@@ -60,7 +61,7 @@ CONVAL = {'string': '1', 'int': '1', 'boolean': 'true', 'lang': 'en'}
 CFGS = ((True, False), (False, False), (True, True), (False, True))     # (use_defaults, fill_missing)
 
 # items: kind -> (local, form, ref, has type dimension)
-ITEMS = {'Lp': ('p', 'unqualified', None, True), 'Lq': ('q', 'unqualified', None, True),
+ITEMS = {'Lp': ('p', None, None, True), 'Lq': ('q', None, None, True), 'Lup': ('p', 'unqualified', None, True),
          'LTp': ('p', 'qualified', None, True), 'RTp': (None, None, 'T:p', False),
          'RN1g': (None, None, 'N1:g', False), 'Rxml': (None, None, 'XML:lang', False),
          'RTd': (None, None, 'T:d', False)}
@@ -116,6 +117,32 @@ def decl_vectors(nitems, maxdev, exactdev=None, kinds=ORDER):
     return [v for _, v in out]
 
 
+FORM_KINDS = ('Lp', 'LTp', 'Lup')      # local p with form absent / qualified / unqualified
+FORM_WILDCARDS = [None, (('any', (), ()), 'lax'), (('enum', ('L',), ()), 'skip'), (('enum', ('T',), ()), 'strict')]
+
+
+def form_family(tier):
+    """attributeFormDefault {absent, qualified, unqualified} x form {absent, qualified, unqualified}: one local
+    declaration with every use x constraint x direct|group option (quick: type int; thorough: all types), and the
+    pairs of two forms with default options.  (absent, absent) and (absent, qualified) are the Lp / LTp schemas
+    of the main space and are not repeated."""
+    out = []
+    for afd in (None, 'qualified', 'unqualified'):
+        for kind in FORM_KINDS:
+            if afd is None and kind != 'Lup':
+                continue
+            for _, item in item_options(kind):
+                if tier != 'quick' or item[4] == 'int':
+                    out.append((afd, (item,)))
+        for k1, k2 in itertools.combinations(FORM_KINDS, 2):
+            items = tuple(item_options(k)[0][1] for k in (k1, k2))
+            if afd is None and 'Lup' not in (k1, k2):
+                continue                              # Lp + LTp without a default is in the main space
+            if len({attrs.effective_name(to_decl(it), afd) for it in items}) == 2:
+                out.append((afd, items))
+    return out
+
+
 def wildcards(version, level):
     """level 'all': none + 7 constraints x 3 processContents; 'few': none + 3 pairs."""
     if level == 'few':
@@ -131,10 +158,11 @@ def wildcards(version, level):
     return out
 
 
-def schema_key(version, items, wc):
+def schema_key(version, items, wc, afd=None):
     its = '+'.join('%s(%s,%s,%s%s)' % (k, use[:3], (con or '-')[:3], via[:3], ',' + typ if typ else '')
                    for k, use, con, via, typ in items) or 'none'
-    return '%s|%s|%s' % (version, its, '-' if wc is None else '%s/%s' % (wild.show(wc[0]), wc[1]))
+    return '%s|%s|%s%s' % (version, its, '-' if wc is None else '%s/%s' % (wild.show(wc[0]), wc[1]),
+                           '|afd=' + afd if afd else '')
 
 
 def schema_space(tier, seed):
@@ -146,7 +174,7 @@ def schema_space(tier, seed):
                 for wc in wildcards(version, wlevel):
                     if slice_k and not runner.in_slice(schema_key(version, items, wc), seed, slice_k):
                         continue
-                    out.append((version, items, wc, heavy))
+                    out.append((version, items, wc, heavy, None))
         add([()], 'all', heavy=(tier == 'thorough'))
         if tier == 'quick':
             add(decl_vectors(1, 9, kinds=('Lp', 'LTp', 'RTp', 'RN1g', 'Rxml', 'RTd')), 'all')
@@ -157,6 +185,9 @@ def schema_space(tier, seed):
             add(decl_vectors(2, 1), 'all')
             add(decl_vectors(2, 2, exactdev=2), 'mid')
             add(decl_vectors(3, 1), 'few')
+        for afd, items in form_family(tier):
+            for wc in (FORM_WILDCARDS if tier == 'quick' else wildcards(version, 'mid')):
+                out.append((version, items, wc, False, afd))
     return out
 
 
@@ -183,8 +214,8 @@ def render_attr(d):
         s = '<xs:attribute ref="%s:%s"' % ({'T': 't', 'N1': 'n1', 'XML': 'xml'}[tok], local)
     else:
         s = '<xs:attribute name="%s" type="xs:%s"' % (d['local'], d['type'])
-        if d['form'] == 'qualified':
-            s += ' form="qualified"'
+        if d['form']:
+            s += ' form="%s"' % d['form']
     if d['use'] != 'optional':
         s += ' use="%s"' % d['use']
     if d['con']:
@@ -192,7 +223,7 @@ def render_attr(d):
     return s + '/>'
 
 
-def render_schema(items, wc):
+def render_schema(items, wc, afd=None):
     groups, body = [], []
     for i, item in enumerate(items):
         a = render_attr(to_decl(item))
@@ -205,16 +236,16 @@ def render_schema(items, wc):
     if wc is not None:
         body.append('<xs:anyAttribute %s processContents="%s"/>' % (wild.render(wc[0]), wc[1]))
     return ('<xs:schema xmlns:xs="http://www.w3.org/2001/XMLSchema" targetNamespace="urn:t" xmlns:t="urn:t" '
-            'xmlns:n1="urn:n1">\n<xs:import namespace="urn:n1"/>\n'
+            'xmlns:n1="urn:n1"%s>\n<xs:import namespace="urn:n1"/>\n'
             '<xs:import namespace="http://www.w3.org/XML/1998/namespace"/>\n'
             '<xs:attribute name="p" type="xs:int"/>\n<xs:attribute name="d" type="xs:int" default="2"/>\n%s\n'
             '<xs:element name="e" nillable="true"><xs:complexType>\n%s\n</xs:complexType></xs:element>\n</xs:schema>'
-            % ('\n'.join(groups), '\n'.join(body)))
+            % (' attributeFormDefault="%s"' % afd if afd else '', '\n'.join(groups), '\n'.join(body)))
 
 
-def build(version, items, wc):
+def build(version, items, wc, afd=None):
     try:
-        return VERSIONS[version]([render_schema(items, wc), N1_SCHEMA]), None
+        return VERSIONS[version]([render_schema(items, wc, afd), N1_SCHEMA]), None
     except (XMLSchemaParseError, XMLSchemaModelError) as e:
         return None, (e.message or str(e))[:200]
 
@@ -368,17 +399,17 @@ def family(tag):
     return ':'.join(p.split('=')[0] for p in parts)
 
 
-def run_schema(version, items, wc, heavy, acc):
-    skey = schema_key(version, items, wc)
+def run_schema(version, items, wc, heavy, acc, afd=None):
+    skey = schema_key(version, items, wc, afd)
     decls = [to_decl(it) for it in items]
-    model = attrs.Model(decls, wc, GLOBALS)
-    schema, err = build(version, items, wc)
+    model = attrs.Model(decls, wc, GLOBALS, afd)
+    schema, err = build(version, items, wc, afd)
     acc.st(traces=1)
     if schema is None:
         acc.ev()
         acc.out('schema-refused')
         acc.disc('C03|%s|refused' % skey, 'schema inside the alphabet refused: %s' % err,
-                 {'version': version, 'items': items, 'wc': wc, 'present': None, 'mode': 'cfg'})
+                 {'version': version, 'items': items, 'wc': wc, 'afd': afd, 'present': None, 'mode': 'cfg'})
         return
     reported = set()
     ninst = 0
@@ -406,7 +437,7 @@ def run_schema(version, items, wc, heavy, acc):
                 continue
             reported.add(fam)
             acc.disc('C03|%s|%s|%s' % (skey, show_inst(present), tag), what,
-                     {'version': version, 'items': items, 'wc': wc, 'present': present, 'mode': mode})
+                     {'version': version, 'items': items, 'wc': wc, 'afd': afd, 'present': present, 'mode': mode})
     acc.st(states=ninst, transitions=model.judgements)
 
 
@@ -428,8 +459,8 @@ def run_shard(shard, acc):
     tier, seed, i, k = shard
     if (tier, seed) not in _SPACE:
         _SPACE[(tier, seed)] = schema_space(tier, seed)
-    for version, items, wc, heavy in _SPACE[(tier, seed)][i::k]:
-        run_schema(version, items, wc, heavy, acc)
+    for version, items, wc, heavy, afd in _SPACE[(tier, seed)][i::k]:
+        run_schema(version, items, wc, heavy, acc, afd)
 
 
 def _tup(x):
@@ -437,12 +468,12 @@ def _tup(x):
 
 
 def replay(case):
-    version, items, wc = case['version'], _tup(case['items']), _tup(case['wc'])
-    skey = schema_key(version, items, wc)
-    schema, err = build(version, items, wc)
+    version, items, wc, afd = case['version'], _tup(case['items']), _tup(case['wc']), case.get('afd')
+    skey = schema_key(version, items, wc, afd)
+    schema, err = build(version, items, wc, afd)
     if schema is None:
         return [('C03|%s|refused' % skey, 'schema inside the alphabet refused: %s' % err)]
-    model = attrs.Model([to_decl(it) for it in items], wc, GLOBALS)
+    model = attrs.Model([to_decl(it) for it in items], wc, GLOBALS, afd)
     discs, info = check_instance(schema, model, case['present'], case['mode'])
     return [('C03|%s|%s|%s' % (skey, show_inst(case['present']), tag), what) for tag, what in discs]
 
@@ -457,4 +488,6 @@ def bounds(tier, seed):
                            'thorough: 1 item complete product x 22 wildcards with value deviations <= 1 over all subsets '
                            'and <= 2 with <= 1 other present; 2 items D<=1 x 22 wildcards; 2 items D=2 x 8 wildcards; '
                            '3 items D<=1 x 4 wildcards'),
+            'form_family': 'attributeFormDefault x form, 7 new combinations x every use/constraint/placement option '
+                           '(quick: type int, 4 wildcards; thorough: 3 types, 8 wildcards) + pairs of two forms',
             'schemas': len(sp), 'instances_per_schema': {'light': len(inst_list(False)), 'heavy': len(inst_list(True))}}
